@@ -986,7 +986,37 @@ def check_scopes(repo, res, rule_entry, rule_methods):
             'a `global x` statement at module level: x resolves to %s (must be the module\'s own %s), y to %s' % (sorted(x or []), gx.oid, sorted(y or []))
     _guard(module_level_global_is_a_no_op, res, rule_methods, 'a global declaration at module level changes nothing', SCOPE,
            '`global x` is legal at module level and has no effect there: the module\'s names are looked up as without it')
-    res.count(rule_entry + '_scenarios', 16, floor=16)
+    def method_global_in_nested_class():
+        # x = 0 / def outer(): x = 1; class C: def m(self): global x; return x     -> the method's x is the module's: its immediate
+        # parent is the class, whose table is the enclosing function's
+        top, tf, gx, gy = build()
+        outer = m.scope('FuncScope', top, top)
+        of = m.flow('func', outer)
+        outer.attrs['flow'] = of
+        ox = m.name('x', (4, 4))
+        ow = m.name('w', (5, 4))
+        m.add(of, ox)
+        m.add(of, ow)
+        cs = m.scope('ClassScope', outer, top)
+        cf = m.flow('class', cs)
+        cs.attrs['flow'] = cf
+        results = []
+        for kind in ('FuncScope', 'ClassScope'):
+            inner = m.scope(kind, cs, top)
+            fl = m.flow('func' if kind == 'FuncScope' else 'class', inner)
+            inner.attrs['flow'] = fl
+            inner.attrs['globals'].add('x')
+            x = m.describe(m.lookup(m.names_at(fl, (9, 12)), 'x'))
+            w = m.describe(m.lookup(m.names_at(fl, (9, 12)), 'w'))
+            results.append((kind, x == frozenset([gx.oid]) and w == frozenset([ow.oid]), sorted(x or []), sorted(w or [])))
+        bad = [r for r in results if not r[1]]
+        return not bad, 'a %s whose immediate parent is a class nested in a function declares `global x`: x resolves to %s (must be the ' \
+            'module-level %s, not the enclosing function\'s %s), undeclared w -> %s (the enclosing function\'s %s)' % (
+                (bad[0][0], bad[0][2], gx.oid, ox.oid, bad[0][3], ow.oid) if bad else ('', '', '', '', '', ''))
+    _guard(method_global_in_nested_class, res, rule_methods, 'a global declaration in a method skips the function around its class', SCOPE,
+           'a scope directly inside a class inherits the table of the function around the class: a name it declares global must still '
+           'be re-routed to the module')
+    res.count(rule_entry + '_scenarios', 17, floor=17)
 
 
 def check_name_scope(repo, res, rule):
@@ -1054,7 +1084,7 @@ def loop_order_records(repo):
             bp = R.base_path(s) if s is not None else None
             if bp is None or bp.raised is not None:
                 raise AnalysisError('no base summary for %s' % cls)
-            for mode in ('compound', 'simple', 'nested loop'):
+            for mode in ('compound', 'simple', 'nested loop', 'two-armed'):
                 t = Template(s.root, bp)
                 alias = dict(t.alias)
                 if mode == 'simple':
@@ -1077,6 +1107,8 @@ def loop_order_records(repo):
                     for lab, _reg, line in list(reads):
                         if 'exit(node.%s)' % lab in bp.regions and t.sort_of('node.' + lab) == 'stmt':
                             reads.append(('inside ' + lab, 'inside ' + lab, line + 3))
+                            if mode == 'two-armed':
+                                reads.append(('inside the else of ' + lab, 'inside the else of ' + lab, line + 5))
                 body_reads = [r for r in reads if r[0].startswith('body')]
                 if not body_reads:
                     raise AnalysisError('%s: no body statement in the summary' % cls)
@@ -1108,7 +1140,14 @@ def loop_order_records(repo):
                                 # ... which is itself a loop whose body stays in one region (the back edge returns to its start)
                                 m.it.call(m.it.getattr(inner, 'loop'), [inner], {})
                             flows['inside ' + r['exit_of'][0][5:]] = inner
-                            ps = [inner, ps[0]]
+                            if mode == 'two-armed':
+                                # ... an if/else: two arms entered from where the statement starts, its exit reached through either
+                                # (the second arm finds the tables of the regions above it already computed by the first)
+                                other = m.flow('inside the else of ' + r['exit_of'][0], fs, [ps[0]])
+                                flows['inside the else of ' + r['exit_of'][0][5:]] = other
+                                ps = [inner, other]
+                            else:
+                                ps = [inner, ps[0]]
                         flows[tok].attrs['parents'] = ps
                         for lp in r['loops']:
                             m.it.call(m.it.getattr(flows[tok], 'loop'), [flows[canon(lp)]], {})
